@@ -112,9 +112,11 @@ def verify(name, tier="quick", keep=False):
             chk["output_tail"] = p.stdout[-500:]
         rec["check"] = chk
         # a change filed under one property may be reported by the check of another
-        if p.returncode == 0 and name.startswith("X"):
+        # (always for the cross-property batch X*; for others on request: SEEDED_OTHERS=C11,C01)
+        if p.returncode == 0 and (name.startswith("X") or os.environ.get("SEEDED_OTHERS")):
             others = {}
-            for other in ["C12", "C05", "C10", "C16", "C14", "C17", "C13", "C09", "C11", "C01", "C08", "C06", "C07"]:
+            want = [o for o in os.environ.get("SEEDED_OTHERS", "").split(",") if o] or ["C12", "C05", "C10", "C16", "C14", "C17", "C13", "C09", "C11", "C01", "C08", "C06", "C07"]
+            for other in want:
                 if other == prop:
                     continue
                 r2 = subprocess.run(["./check", other, "quick"], cwd=VERIF, env=envc, stdout=subprocess.PIPE, stderr=subprocess.STDOUT, text=True)
